@@ -567,3 +567,91 @@ pub fn cmd_tamper(args: &[String]) {
     }
     rep.write(&args[0]);
 }
+
+// ---------------------------------------------------------------------------------------------
+// C03, object API as a user holds it: the init_push / init_pull constructors (header chosen by dryoc),
+// push / push_to_vec / pull / pull_to_vec / rekey over every container, against libsodium in both directions.
+macro_rules! session_variant {
+    ($fname:ident, $label:literal, $key:ty, $hdr:ty, $out:ty, $mk_key:expr, $mk_hdr:expr) => {
+        fn $fname(rep: &mut Report, rng: &mut Rng, nsteps: usize) {
+            use dryoc::types::{Bytes, ByteArray};
+            let kb: [u8; 32] = rng.arr();
+            let key: $key = $mk_key(&kb);
+            // direction 1: dryoc pushes, libsodium and DryocStream pull
+            let (mut push, header): (DryocStream<Push>, $hdr) = DryocStream::init_push(&key);
+            let hb: [u8; 24] = *header.as_array();
+            let mut spull = so_zero();
+            unsafe { so::crypto_secretstream_xchacha20poly1305_init_pull(&mut spull, hb.as_ptr(), kb.as_ptr()) };
+            let mut dpull: DryocStream<Pull> = DryocStream::init_pull(&key, &header);
+            // direction 2: libsodium pushes, DryocStream pulls
+            let mut spush = so_zero();
+            let mut h2 = [0u8; 24];
+            unsafe { so::crypto_secretstream_xchacha20poly1305_init_push(&mut spush, h2.as_mut_ptr(), kb.as_ptr()) };
+            let hdr2: $hdr = $mk_hdr(&h2);
+            let mut dpull2: DryocStream<Pull> = DryocStream::init_pull(&key, &hdr2);
+            let lens = [0usize, 1, 15, 16, 17, 63, 64, 65, 127, 128, 129, 255, 256, 1023, 4096];
+            for step in 0..nsteps {
+                rep.evaluations += 1;
+                let d = json!({"variant": $label, "step": step});
+                if rng.below(6) == 0 {
+                    push.rekey(); dpull.rekey(); dpull2.rekey();
+                    unsafe { so::crypto_secretstream_xchacha20poly1305_rekey(&mut spull); so::crypto_secretstream_xchacha20poly1305_rekey(&mut spush); }
+                    continue;
+                }
+                let mlen = if rng.below(3) == 0 { rng.below(200) as usize } else { lens[rng.below(lens.len() as u64) as usize] };
+                let m = rng.bytes(mlen);
+                let ad: Option<Vec<u8>> = match rng.below(4) { 0 => None, 1 => Some(vec![]), _ => { let n = lens[rng.below(12) as usize]; Some(rng.bytes(n)) } };
+                let tag = rng.below(4) as u8;
+                rep.case(&format!("session|{}|{}|{}|{}", $label, mlen, ad.as_ref().map(|a| a.len() as i64).unwrap_or(-1), tag));
+                let t = Tag::from_bits(tag).unwrap();
+                let c: Vec<u8> = if rng.below(2) == 0 {
+                    match push.push_to_vec(&m, ad.as_ref(), t) { Ok(c) => c, Err(e) => { rep.fail("DryocStream::push_to_vec returned Err", json!({"d": d, "e": format!("{:?}", e)})); return; } }
+                } else {
+                    let r: Result<$out, _> = push.push(&m, ad.as_ref(), t);
+                    match r { Ok(c) => c.as_slice().to_vec(), Err(e) => { rep.fail("DryocStream::push returned Err", json!({"d": d, "e": format!("{:?}", e)})); return; } }
+                };
+                match so_pull(&mut spull, &c, ad.as_deref()) {
+                    Ok((mm, tt)) => if mm != m || tt != tag { rep.fail("session: libsodium pulls something else than DryocStream pushed", d.clone()); },
+                    Err(()) => { rep.fail("session: libsodium rejects what DryocStream::init_push/push produced", d.clone()); return; }
+                }
+                let r: Result<($out, Tag), _> = dpull.pull(&c, ad.as_ref());
+                match r {
+                    Ok((mm, tt)) => if mm.as_slice() != &m[..] || tt.bits() != tag { rep.fail("session: DryocStream::pull returns something else than was pushed", d.clone()); },
+                    Err(_) => { rep.fail("session: DryocStream::init_pull/pull rejects what DryocStream pushed", d.clone()); return; }
+                }
+                let c2 = so_push(&mut spush, &m, ad.as_deref(), tag);
+                match dpull2.pull_to_vec(&c2, ad.as_ref()) {
+                    Ok((mm, tt)) => if mm != m || tt.bits() != tag { rep.fail("session: DryocStream::pull_to_vec returns something else than libsodium pushed", d.clone()); },
+                    Err(_) => { rep.fail("session: DryocStream::init_pull/pull_to_vec rejects what libsodium pushed", d.clone()); return; }
+                }
+            }
+        }
+    };
+}
+type SK = dryoc::types::StackByteArray<32>;
+type SH = dryoc::types::StackByteArray<24>;
+session_variant!(session_stack, "StackByteArray key/header, Vec", SK, SH, Vec<u8>, |k: &[u8; 32]| SK::from(k), |h: &[u8; 24]| SH::from(h));
+session_variant!(session_array, "[u8;N] key/header, Vec", [u8; 32], [u8; 24], Vec<u8>, |k: &[u8; 32]| *k, |h: &[u8; 24]| *h);
+#[cfg(feature = "nightly")]
+session_variant!(session_heap, "HeapByteArray key/header, HeapBytes", dryoc::protected::HeapByteArray<32>, dryoc::protected::HeapByteArray<24>, dryoc::protected::HeapBytes,
+    |k: &[u8; 32]| dryoc::protected::HeapByteArray::<32>::try_from(&k[..]).unwrap(), |h: &[u8; 24]| dryoc::protected::HeapByteArray::<24>::try_from(&h[..]).unwrap());
+#[cfg(feature = "nightly")]
+session_variant!(session_locked, "Locked key/header, LockedBytes", dryoc::protected::Locked<dryoc::protected::HeapByteArray<32>>, dryoc::protected::Locked<dryoc::protected::HeapByteArray<24>>, dryoc::protected::LockedBytes,
+    |k: &[u8; 32]| { use dryoc::protected::NewLockedFromSlice; dryoc::protected::HeapByteArray::<32>::from_slice_into_locked(k).unwrap() },
+    |h: &[u8; 24]| { use dryoc::protected::NewLockedFromSlice; dryoc::protected::HeapByteArray::<24>::from_slice_into_locked(h).unwrap() });
+
+/// `stream-session <out.json> <seed> <nsessions> <nsteps>`
+pub fn cmd_session(args: &[String]) {
+    let seed: u64 = args[1].parse().unwrap();
+    let nsess: usize = args[2].parse().unwrap();
+    let nsteps: usize = args[3].parse().unwrap();
+    let mut rng = Rng::new(seed ^ 0x5e55);
+    let mut rep = Report::new();
+    for _ in 0..nsess {
+        session_stack(&mut rep, &mut rng, nsteps);
+        session_array(&mut rep, &mut rng, nsteps);
+        #[cfg(feature = "nightly")]
+        { session_heap(&mut rep, &mut rng, nsteps); session_locked(&mut rep, &mut rng, nsteps); }
+    }
+    rep.write(&args[0]);
+}
